@@ -17,7 +17,8 @@ TRUSTED = ['dataclasses.__init__ calls __post_init__; dataclasses.replace re-ent
 POOL = [('int', True), ('str', True), ('float', True), ('bool', True), ('List[int]', True), ('list[int]', True), ('Dict[str, int]', True),
         ('Optional[int]', True), ('Union[int, str]', True), ('Tuple[int, str]', True), ('Tuple[int, ...]', True), ('Set[int]', True), ('P', False),
         ('Any', True), ('Sequence[str]', True), ('int | None', True), ('Literal[1, 2]', True), ("List['C1']", False), ('Optional[P]', False),
-        ('Dict[str, List[int]]', True), ('list[Optional[int]]', True)]
+        ('Dict[str, List[int]]', True), ('list[Optional[int]]', True), ('List[List[int]]', True), ('List[Tuple[int, str]]', True),
+        ('Sequence[Dict[str, int]]', True), ('List[Optional[List[int]]]', True), ('List[Literal[1, 2]]', True), ('list[list[int]]', True)]
 # self-referential fields: the dataclass is then called SelfA (its decorated subclass SelfB); the class table holds two placeholder
 # classes of that shape, the context of the case binds their names, and real instances are substituted when values are built
 SELF_POOL_A = ["List['SelfA']", "Optional['SelfA']", "Dict[str, 'SelfA']", "Tuple['SelfA', ...]", "'SelfA'", "list['SelfA']",
